@@ -80,6 +80,55 @@ def tree_hash(crate_dir, config):
     return h.hexdigest()[:32]
 
 
+KEEP_FACTS = 120          # most recently used fact files kept
+SCRATCH_TTL_S = 3 * 3600  # target dirs of scratch trees (seeds, corpus variants) unused for this long are dropped
+PERMANENT_TAGS = ("repo", "bad")
+
+
+def prune():
+    """Bound the size of .cache: old fact files and the target dirs of scratch trees (never those of /repo or the fixture)."""
+    try:
+        fdir = os.path.join(CACHE, "facts")
+        files = sorted((os.path.join(fdir, f) for f in os.listdir(fdir) if not f.startswith("tmp-")), key=os.path.getmtime, reverse=True)
+        for f in files[KEEP_FACTS:]:
+            os.remove(f)
+        now = time.time()
+        for e in os.listdir(CACHE):
+            if not e.startswith("target-"):
+                continue
+            body = e[len("target-"):]
+            if body.startswith("witness-"):
+                body = body[len("witness-"):]
+            tag = body.rsplit("-", 1)[0] if body.rsplit("-", 1)[-1] in CONFIGS else body
+            if tag in PERMANENT_TAGS:
+                continue
+            locks = [os.path.join(CACHE, x) for x in os.listdir(CACHE) if x.startswith("extract-%s-" % tag) and x.endswith(".lock")]
+            last = max([os.path.getmtime(x) for x in locks] + [os.path.getmtime(os.path.join(CACHE, e))])
+            if now - last > SCRATCH_TTL_S:
+                shutil.rmtree(os.path.join(CACHE, e), ignore_errors=True)
+                for x in locks:
+                    try:
+                        os.remove(x)
+                    except OSError:
+                        pass
+    except OSError:
+        pass
+
+
+def drop_scratch(tag):
+    """Remove the target dirs and lock files of one scratch tree (called by the seed / corpus runners when they are done with it)."""
+    if tag in PERMANENT_TAGS or not os.path.isdir(CACHE):
+        return
+    for e in os.listdir(CACHE):
+        if e.startswith("target-%s-" % tag) or e == "target-witness-%s" % tag:
+            shutil.rmtree(os.path.join(CACHE, e), ignore_errors=True)
+        elif e.startswith("extract-%s-" % tag) and e.endswith(".lock"):
+            try:
+                os.remove(os.path.join(CACHE, e))
+            except OSError:
+                pass
+
+
 def extract(config="default", crate_dir=None, use_cache=True, target_tag=None):
     """Return the fact base (dict) of `crate_dir` for `config`."""
     crate_dir = os.path.abspath(crate_dir or REPO)
@@ -93,7 +142,12 @@ def extract(config="default", crate_dir=None, use_cache=True, target_tag=None):
             d = json.load(fh)
         d["_cache"] = "hit"
         d["_tree_hash"] = key
+        try:
+            os.utime(cached)
+        except OSError:
+            pass
         return d
+    prune()
     # one target dir per (crate dir identity, config): dependencies stay warm
     tag = target_tag or hashlib.sha256(crate_dir.encode()).hexdigest()[:10]
     tgt = os.path.join(CACHE, "target-%s-%s" % (tag, config))
